@@ -282,6 +282,70 @@ Definition fetch_failed : client := client0.
 Definition store (c : client) (cookies : list bytes) : client :=
   {| pool := pool c ++ filter cookie_len_ok cookies; c2s := c2s c; s2c := s2c c |}.
 
+(* ---- the three parts of an exchange, as the check executes them on the observed datagrams ---- *)
+Fixpoint bytes_eq (a b : bytes) : bool :=
+  match a, b with
+  | [], [] => true
+  | x :: a', y :: b' => (x =? y) && bytes_eq a' b'
+  | _, _ => false
+  end.
+
+Section Exchange.
+Variable seal : bytes -> bytes -> bytes -> bytes -> bytes.          (* aessiv.Seal key nonce plaintext ad *)
+Variable aopen : bytes -> bytes -> bytes -> bytes -> option bytes.  (* aessiv.Open key nonce ciphertext ad *)
+
+(* client: NewRequestPacket + EncodePacket on the Data that FetchData returned *)
+Definition client_request (d : client) (uid nonce hdr : bytes) : outcome bytes :=
+  obind (new_request (pool d) (c2s d) uid) (fun pkt => encode_packet seal hdr pkt nonce).
+
+(* func (pkt *Packet) authenticate(b, key): Open over the bytes before the authenticator, then
+   the cookie fields of the plaintext.  Error classes 6 key, 7 nonce length, 8 not authentic *)
+Definition authenticate (b : bytes) (d : decoded) (key : bytes) : outcome (list bytes) :=
+  match d_auth d with
+  | None => Err 5
+  | Some (pos, nonce, ct) =>
+      if negb (key_ok key) then Err 6 else
+      if negb (zlen nonce =? 16) then Err 7 else
+      match aopen key nonce ct (firstn (Z.to_nat pos) b) with
+      | None => Err 8
+      | Some plain => plain_cookies (S (length plain)) plain 0 []
+      end
+  end.
+
+(* server, the NTS branch of runIPServer / runSCIONServer once the first cookie has been opened
+   to (c2s, s2c): ProcessRequest; one new cookie per cookie or placeholder of the request
+   (mk n = the n cookies EncryptWithNonce makes under provider.Current()); NewResponsePacket;
+   EncodePacket.  Result: the reply and the cookies it carries. *)
+Definition server_reply (req kc2s ks2c : bytes) (mk : nat -> list bytes) (rnonce rhdr : bytes)
+  : outcome (bytes * list bytes) :=
+  obind (decode_packet req) (fun dq =>
+  match d_cookies dq with
+  | [] => Err 9                                   (* FirstCookie: errNoCookies *)
+  | _ =>
+      obind (authenticate req dq kc2s) (fun extra =>
+      let n := zlen (d_cookies dq ++ extra) + d_nplaceholders dq in
+      let cs := mk (Z.to_nat n) in
+      match d_uid dq with
+      | None => Err 4
+      | Some uid =>
+          obind (new_response cs ks2c uid) (fun rp =>
+          obind (encode_packet seal rhdr rp rnonce) (fun b => Ok (b, cap_cookies (zlen uid) cs)))
+      end)
+  end).
+
+(* client: DecodePacket + ProcessResponse (the unique identifier must be the request's; authenticate;
+   StoreCookie for every cookie of the packet, in the clear or in the ciphertext).  Error 10: other identifier *)
+Definition client_process (reply ks2c reqid : bytes) (c1 : client) : outcome client :=
+  obind (decode_packet reply) (fun dr =>
+  match d_uid dr with
+  | None => Err 4
+  | Some u =>
+      if negb (bytes_eq reqid u) then Err 10 else
+      obind (authenticate reply dr ks2c) (fun cs => Ok (store c1 (d_cookies dr ++ cs)))
+  end).
+
+End Exchange.
+
 (* ---- server: number of cookies issued for a decoded request ---- *)
 Definition server_issue_count (d : decoded) : Z := zlen (d_cookies d) + d_nplaceholders d.
 
@@ -303,6 +367,7 @@ Record exch := {
   e_ke_ok : bool;     (* if a key exchange is needed: does it succeed *)
   e_ok : bool;        (* request reaches the server, is accepted, and the authenticated reply reaches the client *)
   e_skip : nat;       (* cookies the servers issue to other clients (or in replies that get lost) before this call *)
+  e_waste : nat;      (* cookies the server makes in this call that never reach the client (a reply that gets lost) *)
   e_nosend : bool     (* the call ends after FetchData, before a request leaves (deadline passed, the key
                          exchange named a server that is not an IP address): the cookie taken is gone, nothing is sent *)
 }.
@@ -318,7 +383,7 @@ Definition issue_n {C} (issue : nat -> C) (from n : nat) : list C := map issue (
 
 (* the request/reply part of one call, the pool p being what FetchData returned *)
 Definition sys_exchange {C} (issue : nat -> C) (cookieLen : Z) (p : list C) (nx : nat) (sent : list C) (ok nosend : bool)
-  (dflt : sys C) : sys C :=
+  (waste : nat) (dflt : sys C) : sys C :=
   match p with
   | [] => dflt
   | c :: rest =>
@@ -329,7 +394,7 @@ Definition sys_exchange {C} (issue : nat -> C) (cookieLen : Z) (p : list C) (nx 
         (* StoreCookie keeps the cookies of the reply unless they are longer than MaxCookieLen *)
         let k := if cookieLen <=? MaxCookieLen then Z.to_nat (reply_count (1 + np) 32 cookieLen) else O in
         {| s_pool := rest ++ issue_n issue nx k; s_next := (nx + requested)%nat; s_sent := c :: sent |}
-      else {| s_pool := rest; s_next := nx; s_sent := c :: sent |}
+      else {| s_pool := rest; s_next := (nx + waste)%nat; s_sent := c :: sent |}
   end.
 
 (* one call of the client (measureClockOffsetIP / ...SCION with NTS): cookies of
@@ -339,9 +404,9 @@ Definition sys_step {C} (issue : nat -> C) (cookieLen : Z) (s : sys C) (o : exch
   match s_pool s with
   | [] =>
       if e_ke_ok o
-      then sys_exchange issue cookieLen (issue_n issue nx keCookies) (nx + keCookies)%nat (s_sent s) (e_ok o) (e_nosend o) s
+      then sys_exchange issue cookieLen (issue_n issue nx keCookies) (nx + keCookies)%nat (s_sent s) (e_ok o) (e_nosend o) (e_waste o) s
       else {| s_pool := []; s_next := nx; s_sent := s_sent s |}
-  | p => sys_exchange issue cookieLen p nx (s_sent s) (e_ok o) (e_nosend o) s
+  | p => sys_exchange issue cookieLen p nx (s_sent s) (e_ok o) (e_nosend o) (e_waste o) s
   end.
 
 Definition sys0 {C} : sys C := {| s_pool := []; s_next := O; s_sent := [] |}.
